@@ -286,14 +286,55 @@ func (w *World) Exec(op *Op) sched.Outcome {
 					w.stagedSpecs[tip] = op.Policy
 				}
 			}
+			if err == nil {
+				w.Staged = op.Policy
+			}
 			return err
 		case "apply":
 			signer = a.Key
 			err := ApplyPolicy(a.H, true)
 			if tip, ok := w.St.GetRef(policy.PolicyRef); ok {
 				pol = w.stagedSpecs[tip]
+				if pol == nil && err == nil {
+					// staging was rebased by ReconcileStaging: same metadata, new commit
+					pol = w.Staged
+				}
 			}
 			return err
+		case "byzPolicy": // adversary: a policy state written straight onto refs/gittuf/policy plus its log entry
+			if op.Policy == nil {
+				return ErrSkipped
+			}
+			md, err := op.Policy.Build()
+			if err != nil {
+				return fmt.Errorf("harness: cannot build policy: %w", err)
+			}
+			mdTree, err := md.WriteTree(a.H)
+			if err != nil {
+				return err
+			}
+			root, err := a.H.WriteTree([]gitstore.TreeEntry{{Path: "metadata", ID: mdTree, Kind: gitstore.KindSubtree}})
+			if err != nil {
+				return err
+			}
+			cid, err := a.H.Commit(root, policy.PolicyRef, "policy", false)
+			if err != nil {
+				return err
+			}
+			signer = keyOrActor(op.EntryKey, a)
+			pol = op.Policy
+			return RecordEntry(a.H, policy.PolicyRef, cid.String(), op.EntryKey)
+		case "loadPolicy":
+			_, err := policy.LoadCurrentState(context.Background(), a.H, policy.PolicyRef)
+			v := Verdict{Class: Classify(err)}
+			if err != nil {
+				v.Err = err.Error()
+			}
+			if w.Verdicts == nil {
+				w.Verdicts = map[int]Verdict{}
+			}
+			w.Verdicts[op.ID] = v
+			return nil
 		case "discard":
 			return policy.Discard(a.H)
 		case "reconcileStaging":
@@ -323,7 +364,7 @@ func (w *World) Exec(op *Op) sched.Outcome {
 		}
 		return fmt.Errorf("harness: unknown op kind %q", op.Kind)
 	})
-	if op.Kind != "verify" && op.Kind != "restart" {
+	if op.Kind != "verify" && op.Kind != "restart" && op.Kind != "loadPolicy" {
 		w.SyncTruth(op.ID, op.Actor, signer, pol)
 	}
 	w.Outcomes[op.ID] = out
